@@ -211,6 +211,35 @@ def _sites():
         h = edits.P().parse('5 + 6 USD', models.Amount)
         f.raw_directives[1].raw_postings[1].raw_number = h.raw_number
 
+    # nodes whose edge tokens merely EQUAL the edge tokens of their store (zero-width marks, equal comments) without
+    # being them: "is this node the whole of its store" is a question of identity
+    def _equal_edges(which):
+        def site(f, g):
+            h = edits.P().parse('2000-01-01 *\n  Assets:A  1 USD\n2000-01-02 * "x"\n  Assets:B  1 USD\n2000-01-03 open Assets:C', models.File)  # no final newline
+            yield h
+            src, dst = h.raw_directives[0], h.raw_directives[1]
+            if which == 'tags':
+                dst.raw_tags_links = src.raw_tags_links                 # an empty repeated field: one zero-width mark
+            elif which == 'currencies':
+                o = edits.P().parse('2000-01-01 open Assets:Z', models.Open)
+                o.raw_currencies = h.raw_directives[2].raw_currencies
+            elif which == 'meta':
+                dst.raw_meta_with_comments = src.raw_meta_with_comments
+            else:
+                t = models.Transaction.from_value(datetime.date(2000, 1, 1), None, 'n', [], leading_comment='c', trailing_comment='c')
+                pre = intro.pr(t)
+                try:
+                    h.raw_directives[2].raw_leading_comment = t.raw_trailing_comment
+                finally:
+                    if intro.pr(t) != pre:
+                        raise AssertionError(f'the free transaction the comment belongs to prints {intro.pr(t)!r} now (was {pre!r})')
+        return site
+    s_equal_edges_empty_tags = _equal_edges('tags')
+    s_equal_edges_empty_currencies = _equal_edges('currencies')
+    s_equal_edges_empty_meta = _equal_edges('meta')
+    s_equal_edges_same_comment_text = _equal_edges('comment')
+    del _equal_edges
+
     def s_directive_other_doc(f, g):
         f.raw_directives.append(g.raw_directives[0])
     return {k[2:]: v for k, v in locals().items() if k.startswith('s_')}
@@ -278,6 +307,7 @@ MUST_REFUSE = {'claim_foreign', 'unclaim_foreign', 'claim_claimed', 'cost_illega
                'slot_first_token_of_other_model', 'slot_number_at_start_of_free_amount', 'named_claim_meta_found_and_missing',
                'named_claim_postings_found_and_missing', 'named_unclaim_meta_found_and_missing', 'named_unclaim_postings_found_and_missing',
                'loose_comment_into_slot', 'loose_comment_appended', 'loose_comment_setitem',
+               'equal_edges_empty_tags', 'equal_edges_empty_currencies', 'equal_edges_empty_meta', 'equal_edges_same_comment_text',
                'dropmany_valid_and_out_of_range', 'dropmany_out_of_range_first', 'dropmany_negative_out_of_range'}
 
 
